@@ -150,6 +150,15 @@ static const struct gram catalogue[] = {
     { { 1, 2, { 2, 2 }, "s", 1, 2, { 0, 1 } },
       { 2, 1, { 0 }, "a", 1, 1, { 0 } },
       { 2, 0, { 0 }, NULL, 0, 0, { 0 } } } },
+  /* 18: G19 repeated phrases in a list: identical Earley sets recur, so the goto cache is hit
+     S : S P # l(0 1) | P ; P : x A c # p(1) | y A d # q(1) ; A : a b # ab(0 1) | a # a1(0) */
+  { "G19", 9, { T ("a", 'a'), T ("b", 'b'), T ("x", 'x'), T ("y", 'y'), T ("c", 'c'), T ("d", 'd'), N ("S"), N ("P"), N ("A") }, 6,
+    { { 6, 2, { 6, 7 }, "l", 1, 2, { 0, 1 } },
+      { 6, 1, { 7 }, NULL, 0, 1, { 0 } },
+      { 7, 3, { 2, 8, 4 }, "p", 1, 1, { 1 } },
+      { 7, 3, { 3, 8, 5 }, "q", 1, 1, { 1 } },
+      { 8, 2, { 0, 1 }, "ab", 1, 2, { 0, 1 } },
+      { 8, 1, { 0 }, "a1", 1, 1, { 0 } } } },
 };
 #define N_CATALOGUE ((int) (sizeof (catalogue) / sizeof (catalogue[0])))
 
@@ -211,32 +220,51 @@ static char *g_putsym (char *p, const struct gsym *s)
   if (g_is_charterm (s)) { *p++ = '\''; *p++ = s->name[0]; *p++ = '\''; return p; }
   return g_puts (p, s->name);
 }
+/* lexical / layout variations of the rendering (C11) */
+static char g_ws = ' ';        /* the white-space byte used between tokens (may be symbolic) */
+static int g_use_sem = 1;      /* optional semicolons written or not */
+static int g_style = 0;        /* 0 TERM section first, explicit codes; 1 implicit codes; 2 TERM section after the rules; 3 every declaration repeated */
+static int g_comment = 0;      /* a comment after the first rule */
+static char *g_putterms (char *p)
+{
+  int i, any = 0, rep;
+  for (rep = 0; rep < (g_style == 3 ? 2 : 1); rep++)
+    for (i = 0; i < G.nsym; i++)
+      if (G.sym[i].kind == SK_TERM && !g_is_charterm (&G.sym[i]))
+        {
+          if (!any) { p = g_puts (p, "TERM"); any = 1; }
+          *p++ = g_ws; p = g_puts (p, G.sym[i].name);
+          if (g_style != 1) { *p++ = '='; p = g_putn (p, G.sym[i].code); }
+        }
+  if (any) { if (g_use_sem) *p++ = ';'; *p++ = g_ws; }
+  return p;
+}
 static void g_describe (char *buf)
 {
-  char *p = buf; int i, r, k, any = 0;
-  for (i = 0; i < G.nsym; i++)
-    if (G.sym[i].kind == SK_TERM && !g_is_charterm (&G.sym[i]))
-      {
-        if (!any) { p = g_puts (p, "TERM"); any = 1; }
-        *p++ = ' '; p = g_puts (p, G.sym[i].name); *p++ = '='; p = g_putn (p, G.sym[i].code);
-      }
-  if (any) p = g_puts (p, ";\n");
+  char *p = buf; int r, k;
+  if (g_style != 2) p = g_putterms (p);
   for (r = 0; r < G.nrule; r++)
     {
       const struct grule *R = &G.rule[r];
-      if (r == 0 || G.rule[r - 1].lhs != R->lhs) { if (r) p = g_puts (p, " ;\n"); p = g_puts (p, G.sym[R->lhs].name); p = g_puts (p, " :"); }
-      else p = g_puts (p, "\n  |");
-      for (k = 0; k < R->n; k++) { *p++ = ' '; p = g_putsym (p, &G.sym[R->rhs[k]]); }
-      p = g_puts (p, " #");
+      if (r == 0 || G.rule[r - 1].lhs != R->lhs)
+        {
+          if (r) { if (g_use_sem) { *p++ = g_ws; *p++ = ';'; } *p++ = g_ws; if (g_comment) { p = g_puts (p, "/* c* / */"); *p++ = g_ws; } }
+          p = g_puts (p, G.sym[R->lhs].name); *p++ = g_ws; *p++ = ':';
+        }
+      else { *p++ = g_ws; *p++ = '|'; }
+      for (k = 0; k < R->n; k++) { *p++ = g_ws; p = g_putsym (p, &G.sym[R->rhs[k]]); }
+      *p++ = g_ws; *p++ = '#';
       if (R->anode)
         {
-          *p++ = ' '; p = g_puts (p, R->anode); *p++ = ' '; p = g_putn (p, R->cost); p = g_puts (p, " (");
-          for (k = 0; k < R->ntr; k++) { *p++ = ' '; if (R->tr[k] == NILTR) *p++ = '-'; else p = g_putn (p, R->tr[k]); }
-          p = g_puts (p, " )");
+          *p++ = g_ws; p = g_puts (p, R->anode); *p++ = g_ws; p = g_putn (p, R->cost); *p++ = g_ws; *p++ = '(';
+          for (k = 0; k < R->ntr; k++) { *p++ = g_ws; if (R->tr[k] == NILTR) *p++ = '-'; else p = g_putn (p, R->tr[k]); }
+          *p++ = g_ws; *p++ = ')';
         }
-      else if (R->ntr == 1) { *p++ = ' '; if (R->tr[0] == NILTR) *p++ = '-'; else p = g_putn (p, R->tr[0]); }
+      else if (R->ntr == 1) { *p++ = g_ws; if (R->tr[0] == NILTR) *p++ = '-'; else p = g_putn (p, R->tr[0]); }
     }
-  p = g_puts (p, " ;\n");
+  if (g_use_sem) { *p++ = g_ws; *p++ = ';'; }
+  *p++ = g_ws;
+  if (g_style == 2) p = g_putterms (p);
   *p = 0;
 }
 #endif
